@@ -202,6 +202,14 @@ Proof.
     destruct (arity n) as [ar|]; try discriminate; exists ar; reflexivity.
 Qed.
 
+(* every name the commutation rule knows has an arity (so none of them is silently treated as the identity) *)
+Lemma rule_names_covered n : In n rule_names -> exists ar, arity n = Some ar.
+Proof.
+  assert (K : forallb (fun n => match arity n with Some _ => true | None => false end) rule_names = true)
+    by (vm_compute; reflexivity).
+  rewrite forallb_forall in K. intro H. specialize (K n H). destruct (arity n) as [ar|]; [exists ar; reflexivity| discriminate].
+Qed.
+
 Ltac dlen := repeat match goal with
   | H : length ?l = 0 |- _ => is_var l; destruct l; [clear H | discriminate H]
   | H : length ?l = S _ |- _ => is_var l; destruct l; [discriminate H | cbn [length] in H; apply eq_add_S in H]
@@ -396,6 +404,10 @@ Proof.
     rewrite <- En in Ab, Db. rewrite Aa in Ab. injection Ab as <- <- <-. rewrite Da in Db. injection Db as <-.
     destruct (name_facts _ _ _ _ Aa) as (m & Dm & Hs & HB & HC). rewrite Da in Dm. injection Dm as <-.
     unfold iqubits in *.
+    destruct (name_in (iname a) rule_names); cbn [negb] in Hr.
+    2:{ (* a user-defined name: identical operators *)
+      apply andb_prop in Hr. destruct Hr as [Hr Hg]. apply andb_prop in Hr. destruct Hr as [Hc Ht].
+      apply list_eqb_eq in Hc, Ht. apply args_eqb_key in Hg. unfold ikey. rewrite Hc, Ht, Hg. intro s. reflexivity. }
     destruct (Sched.list_eqb (itargets a) (itargets b)) eqn:Et.
     + apply list_eqb_eq in Et. rewrite <- Et in *.
       destruct (np <=? 1) eqn:Enp.
